@@ -6,27 +6,31 @@
 EXTENDS Integers, Sequences, FiniteSets, TLC, Json, IOUtils
 Traces == ndJsonDeserialize(IOEnv.TRACE_FILE)
 N == Len(Traces)
-VARIABLES tid, l, lids, cached, bad, mode, stale
-vars == <<tid, l, lids, cached, bad, mode, stale>>
-Init == tid \in 1..N /\ l = 1 /\ lids = {} /\ cached = {} /\ bad = {} /\ mode = 1 /\ stale = {}
+VARIABLES tid, l, lids, cached, bad, mode, stale, conf
+vars == <<tid, l, lids, cached, bad, mode, stale, conf>>
+\* conf: the client has reconfigured the public tokenizer at some point of this history. What is observed from then on is
+\* outside the statements of C10 / C12 (which quantify over parse / tokenize / clear_cache histories): it is judged by the
+\* model (ParserObject.tla, Configure) but reported under note_ names, which never alarm.
+Init == tid \in 1..N /\ l = 1 /\ lids = {} /\ cached = {} /\ bad = {} /\ mode = 1 /\ stale = {} /\ conf = FALSE
 \* texts[i].fp / .ft : the fresh parser's answers per tokenizer configuration (1 = default). As in ParserObject.tla, a text whose
 \* cache entry may predate a reconfiguration answers as in SOME configuration until clear_cache; every other answer is the
 \* fresh answer under the CURRENT configuration.
 Ok(ans, res, t, md, st) == IF t \in st THEN \E m \in 1..Len(ans) : res = ans[m] ELSE res = ans[md]
-StepVerdict(tr, s, seen, md, st) ==
-  CASE s.op = "parse"    -> (IF s.t \in st \/ Ok(tr.texts[s.t].fp, s.res, s.t, md, st) THEN {} ELSE {IF md = 1 /\ st = {} THEN "parse_depends_on_history" ELSE "note_parse_ignores_configuration"})
-    [] s.op = "tokenize" -> (IF Ok(tr.texts[s.t].ft, s.res, s.t, md, st) THEN {} ELSE {IF md = 1 /\ st = {} THEN "tokenize_depends_on_history" ELSE "note_tokenize_ignores_configuration"})
+StepVerdict(tr, s, seen, md, st, cf) ==
+  CASE s.op = "parse"    -> (IF s.t \in st \/ Ok(tr.texts[s.t].fp, s.res, s.t, md, st) THEN {} ELSE {IF ~cf THEN "parse_depends_on_history" ELSE "note_parse_ignores_configuration"})
+    [] s.op = "tokenize" -> (IF Ok(tr.texts[s.t].ft, s.res, s.t, md, st) THEN {} ELSE {IF ~cf THEN "tokenize_depends_on_history" ELSE "note_tokenize_ignores_configuration"})
                             \cup (IF s.lid # 0 /\ s.lid \in seen THEN {"token_list_not_a_copy"} ELSE {})
     \* a brand-new default parser created AFTER the history answers like the one created before it (nothing process-wide was left behind)
     [] s.op = "fparse"    -> (IF s.res = tr.texts[s.t].fp[1] THEN {} ELSE {"new_parser_depends_on_process_history"})
     [] s.op = "ftokenize" -> (IF s.res = tr.texts[s.t].ft[1] THEN {} ELSE {"new_parser_depends_on_process_history"})
     [] OTHER -> {}
 Next == /\ l <= Len(Traces[tid].steps)
-        /\ LET tr == Traces[tid]  s == tr.steps[l]  v == StepVerdict(tr, s, lids, mode, stale) IN
+        /\ LET tr == Traces[tid]  s == tr.steps[l]  v == StepVerdict(tr, s, lids, mode, stale, conf) IN
              /\ bad' = bad \cup {<<l, c>> : c \in v}
              /\ lids' = IF s.op = "tokenize" /\ s.lid # 0 THEN lids \cup {s.lid} ELSE lids
              /\ cached' = IF s.op = "clear" THEN {} ELSE IF s.op \in {"parse", "tokenize", "deepcall"} THEN cached \cup {s.t} ELSE cached
              /\ mode' = IF s.op = "config" THEN s.m ELSE mode
+             /\ conf' = (conf \/ s.op = "config")
              /\ stale' = IF s.op = "clear" THEN {} ELSE IF s.op = "config" /\ s.m # mode THEN stale \cup cached ELSE stale
         /\ l' = l + 1 /\ UNCHANGED tid
 Finished == l > Len(Traces[tid].steps)
